@@ -27,27 +27,38 @@ def render_step(rng, pattern_ok=True):
     return {"s": "render", "solver": s, "method": m, "device": d, "pattern": pattern_ok and rng.random() < 0.15}
 
 
-def api_tail(rng, nreac, can_edit=True, can_export=True):
-    """render; maybe touch; maybe render again; maybe edit + render"""
+def api_tail(rng, nreac, can_edit=True, can_export=True, extras=()):
+    """1-4 render-like steps (render / to_code / export) with optional edits in between:
+    maybe touch; render-like; [edit]; render-like; ...  `extras` are ready-made add steps."""
     steps = []
     if rng.random() < 0.4:
         steps.append({"s": "touch"})
-    r1 = render_step(rng)
-    steps.append(r1)
-    v = rng.random()
-    if v < 0.35:
-        steps.append(dict(r1))  # identical repeat
-    elif v < 0.55:
-        steps.append(render_step(rng))
-    if can_edit and nreac >= 2 and rng.random() < 0.3:
-        steps.append({"s": "rm_idx", "i": 0})
-        steps.append(render_step(rng))
-    if rng.random() < 0.15:
-        s, m, d = rng.choice(METHODS)
-        steps.append({"s": "to_code", "solver": s, "method": m, "device": d})
-    if can_export and rng.random() < 0.12:
-        s, m, d = rng.choice(METHODS)
-        steps.append({"s": "export", "solver": s, "method": m, "device": d})
+    extras = list(extras)
+    k = rng.choice([1, 2, 2, 3, 4])
+    removed = 0
+    prev = None
+    for j in range(k):
+        r = rng.random()
+        if prev is not None and prev["s"] == "render" and r < 0.3:
+            st = dict(prev)  # identical repeat, no edit in between
+        elif r < 0.72:
+            st = render_step(rng)
+        elif r < 0.86 or not can_export:
+            s_, m_, d_ = rng.choice(METHODS)
+            st = {"s": "to_code", "solver": s_, "method": m_, "device": d_}
+        else:
+            s_, m_, d_ = rng.choice(METHODS)
+            st = {"s": "export", "solver": s_, "method": m_, "device": d_}
+        steps.append(st)
+        prev = st
+        if j < k - 1 and can_edit and rng.random() < 0.45:
+            if extras and rng.random() < 0.5:
+                steps.append(extras.pop())
+                nreac += 1
+            elif nreac - removed >= 2:
+                steps.append({"s": "rm_idx", "i": 0})
+                removed += 1
+            prev = None
     return steps
 
 
@@ -93,6 +104,11 @@ def fam_api_text(rng, idx, cfg, lists, fmt):
     net = dict(lists)
     if rng.random() < 0.3 and len(names) > 4:
         net["allowed_species"] = [x for x in names if rng.random() < 0.8] or names
+    if not net.get("allowed_species") and rng.random() < 0.35:
+        # species that take part in no reaction but must be carried (e.g. for cooling)
+        he = W.CONFIGS[cfg]["spell"]["He"]
+        cand = [x for x in (he, he + "+", he + "++", "N", "D", "D+", "N+") if x not in names]
+        net["required_species"] = rng.sample(cand, min(len(cand), rng.randint(2, 3)))
     if rng.random() < 0.3:
         net["rate_modifier"] = {str(10 + rng.randrange(len(ars))): "1.0e-10 * zeta"}
     if rng.random() < 0.2:
@@ -122,9 +138,22 @@ def fam_api_text(rng, idx, cfg, lists, fmt):
     if rng.random() < 0.25 and not net.get("ode_modifier") and len(names) > 3:
         # narrow the network after the fact; the property promises the same result as constructing it so
         steps.append({"s": "set_allowed", "names": [x for x in names if rng.random() < 0.85] or names})
+    extras = []
+    if not net.get("allowed_species"):
+        sp = W.CONFIGS[cfg]["spell"]
+        for q in range(2):
+            ar = pool_lines(rng, cfg, 1, "naunet")[0]
+            extras.append({"s": "add_inst", "R": [sp[k] for k in ar["R"]], "P": [sp[k] for k in ar["P"]],
+                           "pseudo": [W.CONFIGS[cfg]["pseudo_names"][ar["pseudo"]]] if ar["pseudo"] else [],
+                           "alpha": 5.5e-11 + q * 1e-12, "rtype": ar["rtype"], "idx": 200 + q})
+        if len(names) >= 3:
+            # a reaction among species the network already has
+            a, b, c = rng.sample(names, 3)
+            extras.append({"s": "add_inst", "R": [a, b], "P": [c], "pseudo": [], "alpha": 6.6e-11, "rtype": 100, "idx": 210})
+            rng.shuffle(extras)
     # (Network.export cannot serialise integer rate-modifier keys - a naunet limitation outside C17)
     steps += api_tail(rng, n, can_edit=not (net.get("ode_modifier") or net.get("allowed_species")),
-                      can_export=not net.get("rate_modifier"))
+                      can_export=not net.get("rate_modifier"), extras=extras)
     for st in steps:
         if st["s"] == "touch":
             st["where"] = rng.choice(names)
@@ -235,6 +264,9 @@ def fam_cli_kida(rng, idx):
     ars = pool_lines(rng, "mixed", rng.randint(3, 8), "kida")
     content = "".join(W.encode("mixed", ar, "kida", 10 + i) + "\n" for i, ar in enumerate(ars))
     net = dict(MIXED)
+    if rng.random() < 0.5:
+        have = species_names("mixed", ars)
+        net["required_species"] = rng.sample([x for x in ["He", "He+", "N", "D", "D+"] if x not in have], 2)
     cli = {"files": ["net.kida"], "formats": ["kida"]}
     cli["solver"], cli["method"], cli["device"] = rng.choice(METHODS)
     return {"id": f"cli-kida-{idx}", "family": "cli-kida", "entry": "cli", "name": "simproj", "files": {"net.kida": content},
@@ -329,8 +361,9 @@ def fam_api_cooling(rng, idx):
     cool = [c for c, need in COOLING_NEEDS.items() if all(n in present for n in need)]
     cool = [c for c in cool if rng.random() < 0.8] or cool[:1]
     net = {"elements": ["e", "H", "D", "He"], "pseudo_elements": ["Photon"], "cooling": cool}
-    if rng.random() < 0.3:
-        net["required_species"] = ["D"]
+    if rng.random() < 0.5:
+        cand = [x for x in ["D", "D+", "He", "He+", "He++", "H2", "H-"] if x not in present]
+        net["required_species"] = rng.sample(cand, min(len(cand), rng.randint(1, 3)))
     lines = []
     for i, (R, P) in enumerate(reacs):
         Rf = (R + [""] * 3)[:3]
@@ -339,6 +372,26 @@ def fam_api_cooling(rng, idx):
     steps = [{"s": "new"}, {"s": "add_file", "file": "net.naunet", "fmt": "naunet"}] + api_tail(rng, len(reacs), can_edit=False)
     return {"id": f"api-cooling{variant}-{idx}", "family": f"api-cooling{variant}", "entry": "api", "name": "simproj",
             "files": {"net.naunet": "\n".join(lines) + "\n"}, "net": net, "steps": steps}
+
+
+def fam_api_noindex(rng, idx):
+    """Reactions built as bare instances WITHOUT file indices; the renderer numbers them in joining
+    order.  A rate modifier addresses reactions by that number."""
+    reacs = [(["H", "H"], ["H2"], 100), (["C", "O"], ["CO"], 100), (["O", "H2"], ["H2O"], 100), (["CO", "CR"], ["C", "O"], 101),
+             (["H2O", "Photon"], ["O", "H2"], 102), (["O", "O"], ["O2"], 100), (["H", "O"], ["OH"], 100)]
+    rng.shuffle(reacs)
+    reacs = reacs[: rng.randint(4, 7)]
+    net = dict(MIXED)
+    if rng.random() < 0.7:
+        net["rate_modifier"] = {str(rng.randrange(1, len(reacs))): "2.5e-10 * zeta"}
+    steps = [{"s": "new"}]
+    for i, (R, P, t) in enumerate(reacs):
+        pseudo = [x for x in R if x in ("CR", "Photon")]
+        steps.append({"s": "add_inst", "R": [x for x in R if x not in pseudo], "P": P, "pseudo": pseudo,
+                      "alpha": round((i + 1) * 1.3e-10, 13), "rtype": t, "idx": -1})
+    steps += api_tail(rng, len(reacs), can_edit=True, can_export=not net.get("rate_modifier"))
+    return {"id": f"api-noindex-{idx}", "family": "api-noindex", "entry": "api", "name": "simproj", "files": {},
+            "net": net, "steps": steps}
 
 
 def fam_empty(rng, idx):
@@ -366,8 +419,21 @@ def build_library(seed, tier):
         lib.append(fam_api_cooling(rng, i))
         if i % 2 == 0:
             lib.append(fam_api_leeds(rng, i))
+        lib.append(fam_api_noindex(rng, i))
     lib.append(fam_krome_primordial(rng, 0, "api"))
     lib.append(fam_krome_primordial(rng, 0, "cli"))
     lib.append(fam_empty(rng, 0))
     lib.append(fam_empty(rng, 1))
-    return lib
+    # twins for the "independent of how often it is rendered" clause: the same description with
+    # every rendering except the last one left out must give the same last rendering.  Twins are
+    # only rendered as references (solo); they do not take part in the interleaved runs.
+    twins = []
+    for d in lib:
+        rsteps = [i for i, st in enumerate(d["steps"]) if st["s"] in RENDER_KINDS]
+        if d["entry"] == "api" and (len(rsteps) >= 2 or any(st["s"] == "touch" for st in d["steps"])) and rsteps:
+            keep = [st for i, st in enumerate(d["steps"]) if (st["s"] not in RENDER_KINDS and st["s"] != "touch") or i == rsteps[-1]]
+            twins.append(dict(d, id=d["id"] + "~last", steps=keep, twin_of=d["id"]))
+    return lib + twins
+
+
+RENDER_KINDS = ("render", "to_code", "cli_render", "export")
